@@ -395,7 +395,7 @@ pub fn run(ctx: &Ctx) -> Report {
         rep.machinery(e);
         return rep;
     }
-    let budget = ctx.budget(75.0, 2400.0);
+    let budget = ctx.budget(52.0, 2400.0);
     let nthreads = rayon::current_num_threads().max(1);
     let sandboxes: Vec<Sandbox> = (0..nthreads + 1).map(|i| Sandbox::new(&ctx.scratch.join(format!("w{i}")))).collect();
 
@@ -443,8 +443,8 @@ pub fn run(ctx: &Ctx) -> Report {
         (
             files.clone(),
             vec![
-                RoundSpec { max_edits: 1, edits: e1, commands: vec!["build", "check", "build --check"] },
-                RoundSpec { max_edits: 1, edits: e2, commands: vec!["build", "check"] },
+                RoundSpec { max_edits: 1, edits: e1, commands: vec!["build", "check"] },
+                RoundSpec { max_edits: 1, edits: e2, commands: vec!["build", "check", "build --check"] },
             ],
         )
     };
@@ -546,6 +546,9 @@ pub fn run(ctx: &Ctx) -> Report {
             break;
         }
         rounds_completed = ri + 1;
+        // states with more source files first: they have the most dependency edges, so a budget
+        // cut in the next round keeps the dependency-rich states (stable: discovery order otherwise)
+        next.sort_by_key(|n| std::cmp::Reverse(n.snap.files.keys().filter(|k| k.ends_with(".veryl")).count()));
         frontier = next;
         if frontier.is_empty() {
             break;
